@@ -192,7 +192,17 @@ def vectors(ctx):
         gsraw = m                                  # bits 25-34 shared
         tasraw = max(0, min(187, gsraw + rng.randint(-100, 100)))
         vb = rng.randrange(0, 188)
-        mb = pack(60, [1, 0, 2 * r + 1, 1, v, 1, m, rng.randrange(2) and 1, 0, vb, 1, 0, tasraw])
+        head = [1, 0, 2 * r + 1, 1, v, 1, m]
+        if k % 3 == 2:
+            # partially available data: one interpretation lacks its track / speed / heading (status bits shared between the
+            # two layouts: hdg60 value LSB = trk50 status, ias60 status = trk50 sign, mach60 status = gs50 status)
+            head = rng.choice([[1, 0, 2 * r, 0, 0, 1, m],            # trk50 unavailable, ias60 unavailable
+                               [1, 0, 2 * r + 1, 1, v, 0, 0],        # gs50 / mach60 unavailable
+                               [0, 0, 0, 0, 0, 1, m],                # hdg60 / roll50 / trk50 unavailable
+                               [1, 0, 2 * r + 1, 0, 0, 1, m],        # ias60 unavailable, trk50 = 0 deg
+                               [1, 0, 2 * r + 1, 0, 0, 0, 0],        # neither mach60 nor ias60
+                               [1, 0, 2 * r, 0, 0, 0, 0]])           # nothing but heading / roll
+        mb = pack(60, head + [rng.randrange(2) and 1, 0, vb, 1, 0, tasraw])
         if not (mb >> (55 - 34)) & 1:
             mb &= ~(((1 << 10) - 1) << (55 - 44))
         f = commb_frame(rng, 21, mb)
